@@ -390,3 +390,26 @@ M('c14-getitem-caches-into-container', 'C14', 'C14.R3', FUN, "    key = _key_cas
 B('c14-inline-cast', 'C14', FUN, "    key = _key_cast(container, key)\n    return container.get(key, default)",
   "    key = str(key) if isinstance(container, dict) else (int(key) if isinstance(key, Decimal_) else key)\n    return container.get(key, default)")
 B('c14-cast-at-use', 'C14', FUN, "    key = _key_cast(container, key)\n\n    try:\n        return container[key]", "    try:\n        return container[_key_cast(container, key)]")
+
+# =============================================================================== C03
+M('c03-insert-no-check', 'C03', 'C03.R2', FUN, "    _check_array_size(arr)\n    return arr.insert(int(i), v)", "    return arr.insert(int(i), v)")
+M('c03-push-check-wrong-object', 'C03', 'C03.R2', FUN, "    _check_array_size(arr)\n    return arr.append(v)", "    _check_array_size(v)\n    return arr.append(v)")
+M('c03-push-check-after', 'C03', 'C03.R2', FUN, "    _check_array_size(arr)\n    return arr.append(v)", "    arr.append(v)\n    _check_array_size(arr)")
+M('c03-guard-gt', 'C03', None, FUN, "    if len(arr) >= MAX_ARRAY_SIZE:", "    if len(arr) > MAX_ARRAY_SIZE:")
+M('c03-cap-raised', 'C03', None, FUN, "MAX_ARRAY_SIZE = 10000", "MAX_ARRAY_SIZE = 100000")
+M('c03-new-extend-builtin', 'C03', None, FUN, "    'push': _push,", "    'push': _push,\n    'extend': lambda a, b: a.extend(b),")
+M('c03-new-repeat-builtin', 'C03', 'C03.R3', FUN, "    'push': _push,", "    'push': _push,\n    'repeat': lambda s, n: s * int(n),")
+M('c03-push-as-iadd', 'C03', 'C03.R2', FUN, "    _check_array_size(arr)\n    return arr.append(v)", "    arr += [v]")
+M('c03-guard-swallowed', 'C03', None, FUN, "    _check_array_size(arr)\n    return arr.append(v)", "    try:\n        _check_array_size(arr)\n    except ParserError:\n        pass\n    return arr.append(v)")
+M('c03-new-range-builtin', 'C03', 'C03.R3', FUN, "    'push': _push,", "    'push': _push,\n    'range': lambda n: list(range(int(n))),")
+M('c03-set-no-check', 'C03', 'C03.R2', FUN, "def _set(container: Any, key: Any, value: Any) -> Any:\n    _check_array_size(container)\n", "def _set(container: Any, key: Any, value: Any) -> Any:\n")
+M('c03-new-concat-builtin', 'C03', 'C03.R3', FUN, "    'push': _push,", "    'push': _push,\n    'concat': lambda a, b: a + b,")
+M('c03-guard-only-lists', 'C03', 'C03.R2', FUN, "def _set(container: Any, key: Any, value: Any) -> Any:\n    _check_array_size(container)\n",
+  "def _set(container: Any, key: Any, value: Any) -> Any:\n    if isinstance(container, list):\n        _check_array_size(container)\n")
+M('c03-new-ljust-builtin', 'C03', 'C03.R3', FUN, "    'lower': str.lower,", "    'lower': str.lower,\n    'ljust': str.ljust,")
+
+B('c03-inline-guard', 'C03', FUN, "    _check_array_size(arr)\n    return arr.append(v)", "    if len(arr) >= MAX_ARRAY_SIZE:\n        raise ParserError(f'Array size overflow: {MAX_ARRAY_SIZE}')\n    return arr.append(v)")
+B('c03-guard-wrapper', 'C03', edits=[
+  (FUN, "def _push(arr: list, v: Any):\n    _check_array_size(arr)\n    return arr.append(v)", "def _guarded(arr):\n    _check_array_size(arr)\n    return arr\n\n\ndef _push(arr: list, v: Any):\n    return _guarded(arr).append(v)")])
+B('c03-guard-not-lt', 'C03', FUN, "    if len(arr) >= MAX_ARRAY_SIZE:", "    if not len(arr) < MAX_ARRAY_SIZE:")
+B('c03-guard-literal', 'C03', FUN, "    if len(arr) >= MAX_ARRAY_SIZE:", "    if len(arr) > 9999:")
